@@ -48,6 +48,12 @@ def grid(ctx, per_problem=None):
                                                 "weekday_demand_negbin_delta": [0.5, 3.3, 5.7, 6.9, 0.5, 3.3, 5.7],
                                                 "useful_life_at_arrival_distribution_c_0": [1.0, 0.5], "useful_life_at_arrival_distribution_c_1": [0.0, -0.5],
                                                 "variable_order_cost": 0.25, "fixed_order_cost": 3.0, "shortage_cost": 7.0, "wastage_cost": 2.0, "holding_cost": 1.0}})
+    # extreme logits of the useful-life-at-arrival law (accepted by the configuration validation): the documented
+    # multinomial is still a distribution (one age class takes essentially all the mass)
+    for c1 in (400.0, -400.0):   # beyond exp overflow in double precision too
+        out.append({"kind": "mirjalili", "params": {"max_demand": 3, "max_useful_life": 2, "max_order_quantity": 2, "weekday_demand_negbin_n": [3.5] * 7, "weekday_demand_negbin_delta": [5.7] * 7,
+                                                    "useful_life_at_arrival_distribution_c_0": [1.0], "useful_life_at_arrival_distribution_c_1": [c1],
+                                                    "variable_order_cost": 1.0, "fixed_order_cost": 10.0, "shortage_cost": 20.0, "wastage_cost": 5.0, "holding_cost": 0.5}})
     for pol in ("fifo", "lifo"):
         out.append({"kind": "de_moor", "params": {"max_demand": 7, "demand_gamma_mean": 2.5, "demand_gamma_cov": 0.5, "max_useful_life": 3, "lead_time": 2, "max_order_quantity": 2,
                                                   "variable_order_cost": 3.0, "shortage_cost": 5.0, "wastage_cost": 7.0, "holding_cost": 1.0, "issue_policy": pol}})
